@@ -124,7 +124,16 @@ type Expect struct {
 }
 
 // inScope is the property's scope rule (C05) for an absolute URL.
-func inScope(u *url.URL, excludeHosts []string) bool {
+func inScope(u *url.URL, excludeHosts []string, includeHosts ...string) bool {
+	if len(includeHosts) > 0 {
+		ok := false
+		for _, h := range includeHosts {
+			ok = ok || strings.Contains(u.Host, h)
+		}
+		if !ok {
+			return false
+		}
+	}
 	if u.Scheme != "http" && u.Scheme != "https" {
 		return false
 	}
@@ -194,7 +203,7 @@ func (d *SiteDef) Reference(seed string, opt Options) *Expect {
 			if (u.Scheme == "http" && strings.HasSuffix(u.Host, ":80")) || (u.Scheme == "https" && strings.HasSuffix(u.Host, ":443")) {
 				u.Host = u.Host[:strings.LastIndexByte(u.Host, ':')]
 			}
-			if !inScope(u, opt.ExcludeHosts) {
+			if !inScope(u, opt.ExcludeHosts, opt.IncludeHosts...) {
 				continue
 			}
 			if j.kind == "asset" && (u.Path == "" || u.Path == "/") {
